@@ -380,3 +380,11 @@ Theorem validate_depends_only_on_rules c c' :
 Proof.
   intro E. rewrite !validate_iff_conformant, <- (conformant_erase c), <- (conformant_erase c'), E. tauto.
 Qed.
+
+(** no getter ever panics, whatever the claims-set holds (nil containers,
+    nil component elements, zero-length identifiers included) *)
+Theorem getter_never_panics id c : status S id c <> Panic.
+Proof.
+  destruct (status_all id c) as [[_ F]|[_ [e [St _]]]]; [|rewrite St; discriminate].
+  intro P. rewrite P in F. discriminate.
+Qed.
